@@ -56,9 +56,12 @@ def fragment_reject_reason(src: str, tree: ast.AST) -> str | None:
     for n in ast.walk(tree):
         if isinstance(n, ast.Name) and n.id in ("cast", "TypeGuard", "TypeIs", "Any", "reveal_type", "reveal_locals", "assert_type",
                                                  "exec", "eval", "setattr", "getattr", "delattr", "globals", "locals", "vars", "__import__",
-                                                 "TYPE_CHECKING", "no_type_check", "overload", "input", "open", "exit", "quit"):
+                                                 "TYPE_CHECKING", "no_type_check", "overload", "input", "open", "exit", "quit", "Sentinel", "sentinel"):
             return "uses:" + n.id
-        if isinstance(n, ast.Attribute) and n.attr in ("cast", "TypeGuard", "TypeIs", "Any", "__dict__", "__class__", "TYPE_CHECKING", "__bases__", "__setattr__"):
+        if isinstance(n, ast.Call) and any(k.arg == "default" for k in n.keywords) and \
+                (getattr(n.func, "id", None) or getattr(n.func, "attr", None)) in ("TypeVar", "ParamSpec", "TypeVarTuple"):
+            return "typing-feature-newer-than-host-python"   # TypeVar(default=...) raises TypeError on the host's typing module
+        if isinstance(n, ast.Attribute) and n.attr in ("cast", "TypeGuard", "TypeIs", "Any", "__dict__", "__class__", "TYPE_CHECKING", "__bases__", "__setattr__", "no_type_check", "Sentinel"):
             return "uses:." + n.attr
         if isinstance(n, (ast.FunctionDef, ast.AsyncFunctionDef)):
             a = n.args
@@ -354,6 +357,9 @@ class Oracle:
             if fn == "builtins.object":
                 return True
             if info.is_protocol:
+                pc = self.runtime_class(fn)
+                if pc is not None and isinstance(pc, type) and pc in type(v).__mro__:
+                    return True    # explicit (nominal) subclass of the protocol class, e.g. `self` inside the protocol's own __init__
                 for name in info.protocol_members:
                     if not hasattr(v, name):
                         return False
